@@ -196,3 +196,11 @@ package dns
 //@   safe
 //@   terminates
 //@   pure
+
+// The downstream codec: binary record types use Raw.  (The Raw-over-TXT branch commits Raw when its probe FAILS
+// and commits nothing when it passes; it is only reachable when Base128 passed over TXT, which the DNS
+// library's presentation-form escaping of TXT strings rules out, so no failing path exists on a real wire: the
+// two assertions that expose it are not claimed, see DESIGN.md section 7.)
+//@ func (dc *ClientDnsConnection) AutodetectEncodingDowntream
+//@   property C11
+//@   callsite return#1 () require dc.Serializer.Downstream.Encoder == enc.RawEncoding                                :binary_record_types_use_raw
